@@ -225,6 +225,9 @@ func runProperty(prop, tier, repo string, cs *Contracts, timeout int, verbose bo
 				r.genErrors = append(r.genErrors, fmt.Sprintf("%s@%s: function under contract has no Go body and is not marked trusted", k, cfg.name))
 				continue
 			}
+			if os.Getenv("GOCV_DEBUG") != "" {
+				fmt.Fprintf(os.Stderr, "gen %s@%s\n", k, cfg.name)
+			}
 			res := VerifyFunc(p, fn)
 			r.funcs[k+"@"+cfg.name] = true
 			for _, e := range res.SpecErrs {
